@@ -5,7 +5,6 @@ import (
 	"sort"
 	"strings"
 
-	"github.com/juev/hledger-lsp/internal/analyzer"
 	"github.com/juev/hledger-lsp/internal/ast"
 	"github.com/juev/hledger-lsp/internal/parser"
 )
@@ -104,7 +103,7 @@ func entriesJ(es []entryView) []J {
 // localDiags: analyzer diagnostics that belong to one transaction alone (balance and
 // date-tag checks), as (start line, code, message).
 func localDiags(j *ast.Journal) []J {
-	res := analyzer.New().Analyze(j)
+	res := longLivedAnalyzer().Analyze(j)
 	out := []J{}
 	for _, d := range res.Diagnostics {
 		switch d.Code {
